@@ -131,6 +131,15 @@ def r_add_bad_name(api):
             name = op['iso_path'].rsplit('/', 1)[1]
             op['iso_path'] = join(deep[0], name)
             return ('too-deep', op, False)
+        if which == 'rr-dup':
+            if not cfg.rr:
+                return None
+            parent = parent_of(op['iso_path'])
+            sib = [n.rr_name for p, n in m.ns['iso'].items() if parent_of(p) == parent and n.rr_name and m.depth(p) % 8 != 0]
+            if not sib:
+                return None
+            op['rr_name'] = g.rng.choice(sib)
+            return ('dup-rr-name', op, False)
         if which == 'rr-too-long':
             if not cfg.rr:
                 return None
@@ -409,7 +418,7 @@ for api in ('add_fp', 'add_directory'):
     for w in ('iso', 'joliet', 'udf'):
         RECIPES.append((api, r_add_dup(api), w))
         RECIPES.append((api, r_add_missing_parent(api), w))
-    for w in ('iso', 'joliet', 'rr-missing', 'rr-slash', 'rr-on-plain', 'joliet-on-plain', 'udf-on-plain', 'depth', 'rr-too-long', 'file-mode-plain'):
+    for w in ('iso', 'joliet', 'rr-missing', 'rr-slash', 'rr-on-plain', 'joliet-on-plain', 'udf-on-plain', 'depth', 'rr-too-long', 'rr-dup', 'file-mode-plain'):
         RECIPES.append((api, r_add_bad_name(api), w))
 for w in ('missing', 'dir', 'boot', 'udf-missing'):
     RECIPES.append(('rm_file', r_rm_file, w))
@@ -535,7 +544,7 @@ def run_case(i, seed, tier):
             return False
         if which in ('rr-missing', 'rr-slash', 'rr-too-long', 'half-rr', 'dup', 'missing-parent', 'target-too-long') and api in ('add_symlink',) and not c.rr:
             return False
-        if which in ('rr-missing', 'rr-slash', 'rr-too-long') and not c.rr:
+        if which in ('rr-missing', 'rr-slash', 'rr-too-long', 'rr-dup') and not c.rr:
             return False
         if which in ('rr-on-plain', 'file-mode-plain') and c.rr:
             return False
